@@ -22,7 +22,7 @@ for wt in /tmp/wt${ROUND:-5}-${PFX:-F}*; do
     if [ -d seeded/$id ]; then
       # all properties the agent names for this change
       props=$(grep -E "^##+ *(Change |Mutant )?$l\b" $wt/NOTES.md | grep -oE "C[0-9][0-9]" | sort -u | tr '\n' ' ')
-      tools/iso_eval.sh r${ROUND:-5} $id quick $props 2>&1 | grep "check=" | cut -c1-260
+      tools/iso_eval.sh ${SLOT:-r${ROUND:-5}} $id quick $props 2>&1 | grep "check=" | cut -c1-260
     fi
   done
 done
